@@ -97,6 +97,44 @@ Theorem C19_runave_one_line_per_step : forall (xs : list R) (L s it0 : nat), (1 
 Proof. exact runave_steps_nodup. Qed.
 Print Assumptions C19_runave_one_line_per_step.
 
+(* Any value type (scalar, periodic scalar, 3-vector, unit vector, quaternion: V with the operations calc_runave
+   uses) and an analysis that starts at ANY relative step t0 (a variable defined in the middle of a run): the first
+   call only initialises; a line is written exactly at the relative steps u > t0 on the stride grid for which the
+   L evenly spaced steps u, u-s, .., u-(L-1)s are all after t0 (whether or not t0 is on the grid); it carries
+   constrain((x(u) + near(x(u), x(u-s)) + ..)/L) and the sample variance of the window measured with the variable's
+   own metric (colvar::dist2). *)
+Theorem C19_runave_any_type_any_start : forall (V : Type) (P : @vops R V) (dflt : V) (xs : list V) (L s it0 t0 : nat),
+  (1 <= L)%nat -> (1 <= s)%nat -> (t0 < length xs)%nat ->
+  runaveV_run Rops P L s it0 (rv0 (V:=V)) None (hist_from t0 (skipn t0 xs)) =
+  flat_map (fun u => if emitsV L s t0 u
+                     then [((it0 + u)%nat, win_meanV Rops P dflt xs L s u, win_varV Rops P dflt xs L s u,
+                            sqrt (win_varV Rops P dflt xs L s u))]
+                     else [])
+           (seq (S t0) (length xs - S t0)).
+Proof. intros V P dflt xs L s it0 t0 HL Hs Ht. exact (runaveV_lines P dflt xs L s it0 t0 HL Hs Ht). Qed.
+Print Assumptions C19_runave_any_type_any_start.
+
+Theorem C19_runave_line_condition : forall (L s t0 t : nat), (1 <= L)%nat -> (1 <= s)%nat ->
+  emitsV L s t0 t = true <-> (t mod s = 0 /\ t0 / s * s + L * s <= t)%nat.
+Proof. intros L s t0 t HL Hs. exact (emitsV_iff L s t0 HL Hs t). Qed.
+Print Assumptions C19_runave_line_condition.
+
+(* periodic scalars (period p, wrapped around c): an older value enters the average through its image within half a
+   period of the current value; the average is wrapped into [c - p/2, c + p/2); the deviations use the shortest image *)
+Theorem C19_runave_periodic_images : forall p c : R, (0 < p)%R ->
+  (forall x xi, exists (k : Z) (y : R), lv_near Rops (KPeriodic p c) [x] [xi] = [y] /\
+                                        (y = xi - IZR k * p /\ - p / 2 <= y - x < p / 2)%R) /\
+  (forall m, exists (k : Z) (y : R), lv_constrain Rops (KPeriodic p c) [m] = [y] /\
+                                     (y = m - IZR k * p /\ c - p / 2 <= y < c + p / 2)%R) /\
+  (forall d, exists k : Z, (pimage Rops p d = d - IZR k * p /\ - p / 2 <= d - IZR k * p < p / 2)%R).
+Proof.
+  intros p c Hp. split; [|split].
+  - intros x xi. exact (periodic_near_image p c x xi Hp).
+  - intros m. exact (periodic_constrain_wraps p c m Hp).
+  - intros d. exact (pimage_min_image p d Hp).
+Qed.
+Print Assumptions C19_runave_periodic_images.
+
 (* ---- time-correlation function -------------------------------------------------------------------- *)
 (* For all sequences xi, xj of values (component lists) of this variable and of the variable named by
    corrFuncWithColvar (xi = xj for the autocorrelation), all lengths, strides >= 1, offsets, the three
@@ -140,6 +178,10 @@ Example C19_ex_runave :
   runave_run Qops 3 1 10 (r0 (T:=Q)) None (hist [1; 2; 4; 8; 16]%Q) =
     [(13%nat, 14 # 3, 28 # 3, 28 # 3); (14%nat, 28 # 3, 112 # 3, 112 # 3)]%Q.
 Proof. exact runave_instance. Qed.
+Example C19_ex_runave_periodic :
+  runaveV_run Qops (lv_ops Qops (KPeriodic 8%Q 0%Q)) 2 1 0 (rv0 (V:=list Q)) None (hist [[0]; [7 # 2]; [- 7 # 2]]%Q) =
+    [(2%nat, [(-4)%Q], (1 # 2)%Q, (1 # 2)%Q)].
+Proof. exact runave_periodic_instance. Qed.
 Example C19_ex_acf_offset :
   acf_model Qops AcfCoor true 1 1 1 (hist (map (fun v : list Q => (v, v)) [[1]; [2]; [4]; [8]; [16]; [32]]%Q)) =
     ([(0%nat, 1); (2%nat, 1 # 4)]%Q, 3%nat).
